@@ -837,6 +837,18 @@ Section AllWf.
       destruct (weak_reset_spec None s w x I (or_introl eq_refl) H) as (s1 & R & _ & O1); auto; try (rewrite H0; discriminate).
       rewrite R in E. cbn in E. apply done_inj in E. subst s'. eapply allwf_objs; [exact A|exact O1|apply wf_ptr_obj].
     - exfalso. eapply NS; eauto.
+    - hk D. unfold guarded_init, guarded_set in E. rewrite (wr_gp_eq s g x None H) in E. apply done_inj in E. subst s'.
+      apply allwf_upd; auto. apply wf_ptr_obj.
+    - hk D. unfold guarded_set in E. rewrite (wr_gp_eq s g x p H) in E. apply done_inj in E. subst s'.
+      apply allwf_upd; auto. apply wf_ptr_obj.
+    - unfold of_res in E. destruct (guarded_get s g); try discriminate. apply done_inj in E. subst. auto.
+    - unfold of_res in E. destruct (guarded_get_const s g); try discriminate. apply done_inj in E. subst. auto.
+    - hk H. unfold of_res in E. destruct (guarded_copy s dst src) as [s1| |] eqn:R; try discriminate.
+      apply done_inj in E. subst s'. unfold guarded_copy in R. bind_inv R. okinj R.
+      unfold guarded_set. rewrite (wr_gp_eq s dst x _ H). apply allwf_upd; auto. apply wf_ptr_obj.
+    - hk H. hk H0.
+      destruct (gp_swap_spec s a b x x0 I H H0) as (s1 & R & _ & O1); auto; try congruence.
+      rewrite R in E. cbn in E. apply done_inj in E. subst s'. eapply allwf_objs2; [exact A|exact O1|apply wf_ptr_obj|apply wf_ptr_obj].
   Qed.
 End AllWf.
 
@@ -944,6 +956,9 @@ Section Cleanup.
         destruct (array_reset_spec s i o I A E K W') as (s' & R & _ & _ & _ & O'). rewrite R. cbn.
         exists s', [], (olo (ptr_obj i o None) 0 0). split; auto. split; auto. split; auto.
         unfold tgt, wf_obj. cbn. rewrite Nat.eqb_refl. reflexivity.
+      + exists (OM (GInit i)). cbn [step]. unfold mstep. cbn [mdom]. rewrite HK. cbn [mexec].
+        unfold guarded_init, guarded_set. rewrite (wr_gp_eq s i o None E).
+        do 3 eexists. split; [reflexivity|]. split; [reflexivity|]. split; [reflexivity|]. apply tgt_ptr_obj.
     - (* a stray copy: re-initialise *)
       assert (DI : disposable s i = true) by (unfold disposable, wfb; rewrite E, W; reflexivity).
       destruct (okind o) eqn:K.
@@ -959,6 +974,9 @@ Section Cleanup.
       + exists (OA (VInit i)). cbn [step]. unfold astep. cbn [adom]. rewrite HK, DI. cbn [andb aexec].
         unfold obj_reinit. rewrite E. do 3 eexists. split; [reflexivity|]. split; [reflexivity|].
         split; [reflexivity|]. unfold tgt, wf_obj. cbn. rewrite Nat.eqb_refl. reflexivity.
+      + exists (OM (GInit i)). cbn [step]. unfold mstep. cbn [mdom]. rewrite HK. cbn [mexec].
+        unfold guarded_init, guarded_set. rewrite (wr_gp_eq s i o None E).
+        do 3 eexists. split; [reflexivity|]. split; [reflexivity|]. split; [reflexivity|]. apply tgt_ptr_obj.
   Qed.
 
   Lemma cleanup_from_spec n : forall i s,
@@ -1170,6 +1188,17 @@ Lemma blank_unique_swap x s u v :
   u <> x -> v <> x -> unique_swap (blank x s) (ASlot u) (ASlot v) = rmap (blank x) (unique_swap s (ASlot u) (ASlot v)).
 Proof. intros Nu Nv. unfold unique_swap. bl2. Qed.
 
+Lemma blank_guarded_set x s i p : i <> x -> guarded_set (blank x s) i p = blank x (guarded_set s i p).
+Proof. intros N. unfold guarded_set. apply blank_wr_gp; auto. Qed.
+Lemma blank_guarded_get_const x s i : i <> x -> guarded_get_const (blank x s) i = guarded_get_const s i.
+Proof. intros N. unfold guarded_get_const. bl2. Qed.
+Lemma blank_guarded_copy x s a b :
+  a <> x -> b <> x -> guarded_copy (blank x s) a b = rmap (blank x) (guarded_copy s a b).
+Proof.
+  intros Na Nb. unfold guarded_copy. rewrite blank_guarded_get_const by auto.
+  destruct (guarded_get_const s b); cbn [bind rmap]; auto. rewrite blank_guarded_set by auto. reflexivity.
+Qed.
+
 Lemma blank_unique_release x s u :
   u <> x -> unique_release (blank x s) (ASlot u) =
             rmap (fun r => (blank x (fst (fst r)), snd (fst r), snd r)) (unique_release s (ASlot u)).
@@ -1269,6 +1298,8 @@ Definition mslots (o : mop) : list nat :=
   | WInit w | WReset w => [w]
   | WFrom w x | WLock w x => [w; x]
   | StrayCopy a b => [a; b]
+  | GInit g | GSet g _ | GGet g | GGetC g => [g]
+  | GCopy a b | GSwap a b => [a; b]
   end.
 Definition aslots (o : aop) : list nat :=
   match o with
@@ -1341,6 +1372,12 @@ Section LocStep.
     - unfold stray_copy; rewrite blank_nth by auto; destruct (nth_error (objs s) src); [rewrite blank_set_objs_upd by auto|]; reflexivity.
     - unfold stray_copy; rewrite blank_nth by auto; destruct (nth_error (objs s) src); [rewrite blank_set_objs_upd by auto|]; reflexivity.
     - unfold stray_copy; rewrite blank_nth by auto; destruct (nth_error (objs s) src); [rewrite blank_set_objs_upd by auto|]; reflexivity.
+    - unfold guarded_init. rewrite blank_guarded_set by auto. reflexivity.
+    - rewrite blank_guarded_set by auto. reflexivity.
+    - unfold guarded_get. rewrite blank_guarded_get_const by auto. destruct (guarded_get_const s g); reflexivity.
+    - rewrite blank_guarded_get_const by auto. destruct (guarded_get_const s g); reflexivity.
+    - rewrite blank_guarded_copy by auto. apply of_res_rmap. reflexivity.
+    - rewrite blank_gp_swap by auto. apply of_res_rmap. reflexivity.
   Qed.
 
   Lemma blank_astep x s o : ~ In x (aslots o) -> astep ok v0 (blank x s) o = omap (blank x) (astep ok v0 s o).
